@@ -1484,11 +1484,14 @@ class ClientRequest(ClientRequestBase):
             # Force headers to be sent before waiting for 100-continue
             writer.send_headers()
             await writer.drain()
+            # Decided before waiting: a file payload may be closed by the time
+            # the wait is cancelled, and its size can't be asked any more.
+            body_outstanding = self._body.size != 0
             try:
                 await self._continue
             except asyncio.CancelledError:
                 # A body that was never sent means the connection can't be reused
-                if self._body.size != 0:
+                if body_outstanding:
                     conn.close()
                 raise
 
